@@ -31,7 +31,9 @@ EXTENDS CCEval, ProgsIO   \* ProgsIO defines Progs, the sequence of program reco
 
 CONSTANTS Mode,       \* "single" | "three"
           Sample,     \* FALSE: every choice is explored; TRUE: every choice is one random draw
-          Runs        \* number of independent runs per program (1 unless Sample)
+          Runs,       \* number of independent runs per program (1 unless Sample)
+          ViewRoots   \* TRUE: every message is demanded (its receiver's view contains it) -- used by the
+                      \* privacy property; FALSE: only what the outputs depend on is demanded
 
 VARIABLES run,        \* run number (distinguishes the sampled runs of one program; constant in a behaviour)
           g,          \* index of the program being executed
@@ -86,7 +88,12 @@ NeedFrom(G, n, need) ==
 (* worker); TLCEval (= identity) forces TLC to evaluate the function constructors there and     *)
 (* then.  Semantically  NeedT = NeedTDef  etc.                                                  *)
 \* (the parameter only keeps TLC from evaluating these at start-up, before the ASSUME)
-NeedTDef(u) == TLCEval([i \in 1..NP |-> NeedFrom(M(i), Len(M(i)), OutNeeds(i))])
+\* every message that is sent is part of its receiver's view, whether or not it is used afterwards
+SendNeeds(i) == LET G == M(i) IN
+  UNION {{<<G[n].sends[k][2], n>> : k \in 1..Len(G[n].sends)} : n \in 1..Len(G)}
+Roots(i) == IF ViewRoots /\ Mode = "three" THEN OutNeeds(i) \cup SendNeeds(i) ELSE OutNeeds(i)
+
+NeedTDef(u) == TLCEval([i \in 1..NP |-> NeedFrom(M(i), Len(M(i)), Roots(i))])
 \* which parties have to evaluate node n locally
 LocTDef(need) == TLCEval([i \in 1..NP |-> TLCEval([n \in 1..Len(M(i)) |->
               {Who(M(i), n)[p] : p \in {pp \in Parties : <<pp, n>> \in need[i]}}])])
